@@ -14,6 +14,7 @@ pub mod c07;
 pub mod c08;
 pub mod c09;
 pub mod c10;
+pub mod c11;
 pub mod c12;
 pub mod c14;
 pub mod c17;
@@ -31,6 +32,7 @@ pub fn registry() -> Vec<(&'static str, MonitorFn)> {
         ("C08", c08::run as MonitorFn),
         ("C09", c09::run as MonitorFn),
         ("C10", c10::run as MonitorFn),
+        ("C11", c11::run as MonitorFn),
         ("C12", c12::run as MonitorFn),
         ("C17", c17::run as MonitorFn),
     ]
